@@ -269,16 +269,34 @@ func (r *Rediaron) BatchPut(ctx context.Context, data map[string]string) error {
 }
 
 // BatchCreateAndDecr decr processing and add workload
+// like the etcd implementation it fails when the processing key doesn't exist
 func (r *Rediaron) BatchCreateAndDecr(ctx context.Context, data map[string]string, decrKey string) (err error) {
-	batchCreateAndDecr := func(pipe redis.Pipeliner) error {
-		pipe.Decr(ctx, decrKey)
-		for key, value := range data {
-			pipe.SetNX(ctx, key, value, 0)
+	batchCreateAndDecr := func(tx *redis.Tx) error {
+		e, err := tx.Exists(ctx, decrKey).Result()
+		if err != nil {
+			return err
 		}
-		return nil
+		if e != 1 {
+			return errors.Wrap(ErrKeyNotExitsts, decrKey)
+		}
+		_, err = tx.TxPipelined(ctx, func(pipe redis.Pipeliner) error {
+			pipe.Decr(ctx, decrKey)
+			for key, value := range data {
+				pipe.SetNX(ctx, key, value, 0)
+			}
+			return nil
+		})
+		return err
 	}
-	_, err = r.cli.TxPipelined(ctx, batchCreateAndDecr)
-	return
+
+	// optimistic lock on the processing key: retry if it changed in between
+	for i := 0; i < maxTxnRetry; i++ {
+		err = r.cli.Watch(ctx, batchCreateAndDecr, decrKey)
+		if !errors.Is(err, redis.TxFailedErr) {
+			return err
+		}
+	}
+	return ErrMaxRetryExceeded
 }
 
 // BatchDelete is wrapper to adapt etcd batch delete
